@@ -31,25 +31,34 @@ func b64IsURL(e *base64.Encoding) bool {
 // class is kept out of the regular expression: cvc5 answers unknown on (A^4)* style languages.)
 func b64OkTerm(e *base64.Encoding, s *Term) *Term {
 	a := reB64StdChar
+	rawName := "u_b64rawstd"
 	if b64IsURL(e) {
 		a = reB64URLChar
+		rawName = "u_b64url"
+	}
+	// alphabet membership, part by part: outputs of the unpadded encoder of the same alphabet are
+	// members by construction (no regular constraint on UF-valued strings: they are slow in cvc5)
+	alpha := func(t *Term) *Term {
+		var cs []*Term
+		for _, p := range concatParts(t) {
+			if p.Op == "uf" && p.S == rawName {
+				continue
+			}
+			cs = append(cs, mkInRe(p, "(re.* "+a+")"))
+		}
+		return mkAnd(cs...)
 	}
 	if b64IsRaw(e) {
-		return mkAnd(mkInRe(s, "(re.* "+a+")"), mkNot(mkEq(mkApp("mod", SInt, mkLen(s), mkInt(4)), mkInt(1))))
+		return mkAnd(alpha(s), mkNot(mkEq(mkApp("mod", SInt, mkLen(s), mkInt(4)), mkInt(1))))
 	}
 	// padded: length multiple of four, at most two trailing '='
 	body := "(re.++ (re.* " + a + `) (re.union (str.to_re "") (str.to_re "=") (str.to_re "==")))`
 	l := mkLen(s)
-	pad2 := mkSuffixOf(mkStr("=="), s)
-	pad1 := mkSuffixOf(mkStr("="), s)
-	_ = pad1
-	return mkAnd(mkInRe(s, body), mkEq(mkApp("mod", SInt, l, mkInt(4)), mkInt(0)),
-		mkImplies(pad2, mkLe(mkInt(4), l)))
+	return mkAnd(mkInRe(s, body), mkEq(mkApp("mod", SInt, l, mkInt(4)), mkInt(0)))
 }
 
 // b64EncodeAxioms constrains r = enc(x).
 func b64EncodeAxioms(m *Machine, e *base64.Encoding, n string, x, r *Term) {
-	m.assume(b64OkTerm(e, r))
 	if b64IsRaw(e) {
 		lr3 := mkMul(mkLen(r), mkInt(3))
 		lx4 := mkMul(mkLen(x), mkInt(4))
@@ -75,35 +84,33 @@ func b64DecodedAxioms(m *Machine, e *base64.Encoding, n string, s, d *Term) {
 	m.b64NoteDecoded(e, n, s)
 }
 
-// b64NoteDecoded registers s as an argument of dec on this path and relates it to the earlier ones:
-// equal decodings force equal lengths and equality up to the last character; for
-// lengths that are multiples of four decoding is injective.
-func (m *Machine) b64NoteDecoded(e *base64.Encoding, n string, s *Term) {
-	if !b64IsRaw(e) {
+// b64NoteDecoded is kept as a no-op registration point (the pairwise axioms are emitted lazily
+// by b64DecEqAxiom when two decodings are actually related by a MAC equation).
+func (m *Machine) b64NoteDecoded(e *base64.Encoding, n string, s *Term) {}
+
+// b64DecEqAxiom: for x = dec(a), y = dec(b) of the same unpadded encoding, equal decodings force equal
+// lengths and equality up to the last character (Go ignores only trailing bits of the last character);
+// for lengths that are multiples of four decoding is injective.
+func (m *Machine) b64DecEqAxiom(x, y *Term) {
+	if x.Op != "uf" || y.Op != "uf" || x.S != y.S || len(x.Args) != 1 || len(y.Args) != 1 {
 		return
 	}
-	key := "f1:b64dec:" + n
-	for _, o := range m.ghost[key] {
-		if sameTerm(o.(*Term), s) {
-			return
-		}
+	if x.S != "u_b64url_dec" && x.S != "u_b64rawstd_dec" {
+		return
 	}
-	ok := func(t *Term) *Term { return b64OkTerm(e, t) }
-	dec := func(t *Term) *Term { return mkUF(n+"_dec", SStr, t) }
-	for _, o := range m.ghost[key] {
-		a := o.(*Term)
-		if a.IsConst() && s.IsConst() {
-			continue
-		}
-		same := mkAnd(ok(a), ok(s), mkEq(dec(a), dec(s)))
-		la, ls := mkLen(a), mkLen(s)
-		pa := mkSubstr(a, mkInt(0), mkSub(la, mkInt(1)))
-		ps := mkSubstr(s, mkInt(0), mkSub(ls, mkInt(1)))
-		m.assume(mkImplies(same, mkAnd(mkEq(la, ls), mkEq(pa, ps))))
-		m.assume(mkImplies(mkAnd(same, mkEq(mkApp("mod", SInt, la, mkInt(4)), mkInt(0))), mkEq(a, s)))
-		// equal strings decode equally (congruence) - nothing to add
+	a, s := x.Args[0], y.Args[0]
+	if sameTerm(a, s) {
+		return
 	}
-	m.ghost[key] = append(m.ghost[key], s)
+	la, ls := mkLen(a), mkLen(s)
+	same := mkEq(x, y)
+	if a.IsConst() && s.IsConst() {
+		return
+	}
+	pa := mkSubstr(a, mkInt(0), mkSub(la, mkInt(1)))
+	ps := mkSubstr(s, mkInt(0), mkSub(ls, mkInt(1)))
+	m.assume(mkImplies(same, mkAnd(mkEq(la, ls), mkEq(pa, ps))))
+	m.assume(mkImplies(mkAnd(same, mkEq(mkApp("mod", SInt, la, mkInt(4)), mkInt(0))), mkEq(a, s)))
 }
 
 type macApp struct {
@@ -134,7 +141,33 @@ func (m *Machine) noteMAC(hname string, key, data, out *Term, ufName string) {
 			m.assume(mkEq(mkUF(ufName, SStr, a.key, a.data), a.out))
 		}
 		m.assume(mkImplies(mkEq(a.out, out), mkAnd(mkEq(a.key, key), mkEq(a.data, data))))
+		if !(a.key.IsConst() && key.IsConst() && a.key.S != key.S) {
+			m.b64DecEqAxiom(a.data, data)
+		}
 	}
 	m.ghost[gk] = append(m.ghost[gk], macApp{key, data, out})
 	m.note("A-mac: for each hash function the MAC is injective in (key, message) on the applications of one path (collision resistance)")
+}
+
+// macEqSimplify decides equalities between two MAC applications of the same hash function
+// syntactically (A-mac injectivity): different constant keys never collide, equal keys reduce
+// the question to the messages.
+func macEqSimplify(x, y *Term) (*Term, bool) {
+	if x.Op != "uf" || y.Op != "uf" || x.S != y.S || len(x.Args) != 2 || len(y.Args) != 2 {
+		return nil, false
+	}
+	if len(x.S) < 7 || x.S[:7] != "u_hmac_" {
+		return nil, false
+	}
+	kx, ky := x.Args[0], y.Args[0]
+	if kx.IsConst() && ky.IsConst() {
+		if kx.S != ky.S {
+			return mkBool(false), true
+		}
+		return mkEq(x.Args[1], y.Args[1]), true
+	}
+	if sameTerm(kx, ky) {
+		return mkEq(x.Args[1], y.Args[1]), true
+	}
+	return nil, false
 }
